@@ -21,6 +21,30 @@ TIERS = {
 }
 
 
+def prove(work):
+    """tlapm on spec/proofs/TTProof.tla with an empty fingerprint cache; a failed obligation is a tool error
+    (a statement about the specification, never a verdict on the code)"""
+    import re
+    import shutil
+    import subprocess
+    d = os.path.join(work, "tlaps")
+    os.makedirs(d, exist_ok=True)
+    shutil.copy(os.path.join(vlib.SPEC, "proofs", "TTProof.tla"), d)
+    shutil.copy(os.path.join(vlib.SPEC, "TTCore.tla"), d)
+    try:
+        p = subprocess.run(["tlapm", "--threads", "8", "--cleanfp", "TTProof.tla"], cwd=d, stdout=subprocess.PIPE, stderr=subprocess.STDOUT,
+                           text=True, timeout=1800)
+    except subprocess.TimeoutExpired:
+        raise ToolError("tlapm time-out on TTProof.tla")
+    m = re.search(r"All (\d+) obligations proved", p.stdout)
+    if p.returncode != 0 or not m:
+        log(p.stdout[-3000:])
+        raise ToolError("TLAPS does not prove TTProof.tla (a statement about the specification, not about the code)")
+    log("[tt] TLAPS: all %s obligations of TTProof.tla proved (IndInv inductive for unbounded histories)" % m.group(1))
+    return {"module": "spec/proofs/TTProof.tla", "obligations_proved": int(m.group(1)),
+            "theorems": ["InitInv", "StoreInv", "RetrieveInv", "Invariance: SpecU => []IndInv", "OnlyStoredU", "DeepestWinsU"]}
+
+
 def run(prop, tier, seed):
     T = TIERS[tier]
     R = vlib.Result(prop, tier, seed)
@@ -52,6 +76,11 @@ def run(prop, tier, seed):
         R.coverage["replay"] = summ
         R.sample({"history": json.loads(open(emit).readlines()[min(500, res.distinct - 2)])})
         log("[tt] model %d states; %d histories replayed, %d mismatches" % (res.distinct, summ["histories"], len(mism)))
+
+        # unbounded histories: the inductive invariant of TTCore.tla, proved by TLAPS (thorough tier; the proof is
+        # about the specification alone and changes only when the specification does)
+        if tier == "thorough":
+            R.coverage["tlaps_proof"] = prove(work)
 
         # I->S
         def shard(i):
